@@ -28,7 +28,6 @@ RULE = ("per seed one experiment: (perm) up to 6 seeded permutations of the Set*
         ">= 2 steps; distinct = trace digests; distinct schedules = distinct recorded baton sequences")
 ASSUMPTIONS = ["evaluation-MONITOR contents under a non-default map are out of scope (mystic replaces the monitor by Null there; C04's precondition)",
                "ensemble members are NM/Powell (they draw no random numbers while running), as the property states",
-               "costs returning +inf are excluded for DE2 (KF-de2-inf-uncounted makes the evaluation counter map dependent by a listed finding)",
                "real parallel maps (pathos/multiprocess/MPI) are not installed: SimMap reproduces their contract (ordering, pickling boundary, isolation), not their code"]
 REAL = ["mystic solvers (DE2, Lattice, Buckshot, NM, Powell), abstract_ensemble_solver map/reduce, python_map, dill"]
 STUB = ["the map (SimMap: order, interleaving of real threads under a seeded baton scheduler, dill process boundary)",
@@ -42,7 +41,7 @@ OPS_KEY = 'none'
 
 PERM_KNOBS = dict(p_term=0.6, p_limits=0.5, p_midrun_set=0.0, p_solve=0.0, p_finalize=0.0, max_ops=0, p_vector=0.08,
                   p_bounds=0.5, p_constraint=0.3, p_penalty=0.4, p_monitors=0.6, p_logging=0.0, max_dim=3,
-                  cost_models=['quad', 'quad', 'rosen', 'abs', 'quant', 'maxabs'], p_clipfalse=0.1)
+                  cost_models=['quad', 'quad', 'rosen', 'abs', 'quant', 'maxabs', 'infband'], p_clipfalse=0.1)
 
 def gen_plan(seed, tier):
     rng = sub_rng(seed, 'plan.c07')
